@@ -710,6 +710,11 @@ int vorbis_encode_setup_init(vorbis_info *vi){
   setup=(ve_setup_data_template *)hi->setup;
   if(setup==NULL)return(OV_EINVAL);
 
+  /* the set-up is completed once; a second pass would allocate every
+     floor, residue, psy and map entry again on top of the first and
+     grow the floor list, and nothing would release the first set */
+  if(hi->set_in_stone)return(OV_EINVAL);
+
   hi->set_in_stone=1;
   /* choose block sizes from configured sizes as well as paying
      attention to long_block_p and short_block_p.  If the configured
